@@ -14,10 +14,10 @@ TraceInit == l = 1 /\ LInit([n |-> 1, legacy |-> FALSE, ap |-> FALSE, inUse |-> 
 TReset == Is("LReset") /\ LReset([n |-> Ev.n, legacy |-> Ev.legacy, ap |-> Ev.ap, inUse |-> Ev.in_use, max |-> Ev.max])
 TUsed  == IsT("queue_used") /\ AnswerUsed(Ev.v)
 TMax   == IsT("max_queue_size") /\ AnswerMax(Ev.v)
-TAlloc == Is("DmaAlloc") /\ ~Ev.failed /\ DmaAlloc(Ev.pal, Ev.pages, Ev.dir, Ev.ap)
+TAlloc == Is("DmaAlloc") /\ IF Ev.failed THEN AllocFailed ELSE DmaAlloc(Ev.pal, Ev.pages, Ev.dir, Ev.ap)
 TSet   == IsT("queue_set") /\ QueueSet(Ev.size, Ev.descl, Ev.availl, Ev.usedl)
 TInit  == Is("InitLinks") /\ RingsObserved(Ev.rings_zero)
-TRet   == Is("NewRet") /\ IF Ev.ok THEN NewOk ELSE NewErr(Ev.err)
+TRet   == Is("NewRet") /\ IF Ev.ok THEN NewOk ELSE (NewErr(Ev.err) \/ NewErrNoMem(Ev.err))
 TFree  == Is("DmaDealloc") /\ Ev.known /\ Ev.pages_ok /\ DmaDealloc(Ev.pal, Ev.pages, Ev.va_ok, Ev.ap)
 TDrop  == IsT("drop") /\ UNCHANGED lvars
 TEnd   == Is("LEnd") /\ LifeEnd
